@@ -42,6 +42,8 @@ SHAPES = {
     "comment-flags": ["ShNode"], "comment-alternation": ["ShNode"], "comment-angle-alternation": ["ShNode"], "sinkctx-str": ["ShNode"],
     # product sweep: a capture of a generic root is any of the shapes
     "product": ["ShNode", "ShList 0", "ShList 1", "ShList 3", "ShTypedNil", "ShNilIface"],
+    # the match of a range-header / range-clause pattern: a *gogrep.PartialNode
+    "partial": ["ShNode"],
 }
 # what kind of node the `$x` capture of a shape is for go/printer (the text of a capture that cannot be sliced out of the
 # file is printed): printable (expression, statement, declaration, spec), a comment, a field list, a gogrep node list of
@@ -52,6 +54,7 @@ CLASSES = {
     "fields-head": ["NcSlice true"], "fields-tail": ["NcSlice true"], "fields-all": ["NcFieldList"],
     "type": ["NcPrintable"], "names": ["NcSlice false"], "sinkctx": ["NcPrintable"], "sinkctx-str": ["NcPrintable"],
     "product": ["NcPrintable", "NcComment", "NcField", "NcFieldList", "NcSlice false", "NcSlice true"],
+    "partial": ["NcPartial"],
 }
 READABLE = {"": ["true"], "mem": ["false"], "stale": ["true", "false"]}
 # (the two-variable shapes `two:*` -- one capture absent, the other present -- take part in the sweep only: the Coq model's
@@ -60,7 +63,7 @@ READABLE = {"": ["true"], "mem": ["false"], "stale": ["true", "false"]}
 
 def run(c):
     thorough = c.tier == "thorough"
-    c.go2coq_sources = ["filters.go", "filters_types.go", "filters_state.go", "filters_helpers.go", "filters_total2.go", "filters_walker.go", "filters_reuse.go"]   # private translator build: another family's generator cannot break this check
+    c.go2coq_sources = ["filters.go", "filters_types.go", "filters_state.go", "filters_helpers.go", "filters_total2.go", "filters_walker.go", "filters_reuse.go", "filters_enums.go"]   # private translator build: another family's generator cannot break this check
     c.rule = ("one rule per (filter constructor instance | At() | Do() function, capture shape incl. comment-rule captures) with Report(`$x|$$`) and Suggest(`$x`), run under "
               "(TruncateLen, Go version, fresh/reused state) settings; evaluations count engine runs of one rule under one "
               "setting; a case is distinct by (instance, shape, setting) and non-trivial when the rule delivered reports")
@@ -87,9 +90,25 @@ def run(c):
     g1 = c.go2coq("filtertotal", "Gen_FilterTotal.v") and c.go2coq("filtertotal2", "Gen_FilterTotal2.v")
     g2 = c.go2coq("leaf", "Gen_Truncate.v", "-file", "ruleguard/runner.go", "-funcs", "truncateText")
     g3 = c.go2coq("c15extras", "Gen_C15Extras.v")
+    # the argument names the loader accepts for the enumerated-argument predicates (Object.Is kinds, OfKind names, GoVersion
+    # methods) and the names makeObjectIsFilter has a predicate for; handed to the harness, which drives every accepted name
+    g4 = c.go2coq("filterenums", "Gen_FilterEnums.v")
+    regen_enums = {}
+    enums_path = os.path.join(c.work, "enums.json")
+    if g4:
+        txt = open(os.path.join(c.work, "gen", "Gen_FilterEnums.v")).read()
+        m = re.search(r"Definition gen_enum_accepted.*?:=\s*\[(.*?)\n\]\.", txt, re.S)
+        for name, body in re.findall(r'\("([^"]+)",\s*\[(.*?)\]\)', m.group(1) if m else ""):
+            regen_enums[name] = re.findall(r'"([^"]*)"', body)
+        if "Type.OfKind" in regen_enums:
+            regen_enums["Type.Underlying.OfKind"] = list(regen_enums["Type.OfKind"])
+        if not regen_enums.get("Object.Is"):
+            c.obligation("go2coq-parse:filterenums", False, txt[:2000])
+    with open(enums_path, "w") as f:
+        json.dump(regen_enums, f)
     if g1:
-        gen_ok = c.coq_compile(["Gen_FilterTotal.v", "Gen_FilterTotal2.v"])
-    if g1 and g2 and g3 and gen_ok:
+        gen_ok = c.coq_compile(["Gen_FilterTotal.v", "Gen_FilterTotal2.v"] + (["Gen_FilterEnums.v"] if g4 else []))
+    if g1 and g2 and g3 and g4 and gen_ok:
         if c.coq_compile(["Gen_Truncate.v", "Gen_C15Extras.v"]):
             c.install_tmpl("C07/Inst_C07.v", "C15/Inst_Truncate.v", "C07/C07.v")
             c.coq_compile(["Inst_C07.v", "Inst_Truncate.v", "C07.v"])
@@ -102,7 +121,7 @@ def run(c):
 
     def sweep(full):
         state["n"] += 1
-        args = ["-tmp", os.path.join(c.work, "tmp")]
+        args = ["-tmp", os.path.join(c.work, "tmp"), "-enums", enums_path]
         if full:
             args.append("-full")
         rc, out = c.run_harness(hb, args, timeout=1500)
@@ -140,6 +159,12 @@ def run(c):
                 inp["site"] = r["site"]
                 if r["shape"] == "deep":
                     inp["target"] = "harness/cmd/c07/deep.go:deepDecls (recursive / cyclic / very large types)"
+            if r["shape"] == "enum":
+                inp["report"], inp["suggest"] = "$$ (the rule never reports: rejecting form)", "(none)"
+                inp["target"] = "harness/cmd/c07/enums.go:enumSource (identifiers of every object kind as callees, operands, list elements, selector parts, labels)"
+            if r["shape"] == "partial":
+                inp["report"], inp["suggest"] = r["inst"].split(":", 1)[-1], "`$$` for the `$x in $$` rules"
+                inp["target"] = "harness/cmd/c07/enums.go:partialSrc (range statements of every form)"
             if r["shape"].startswith("two:"):
                 inp["report"], inp["suggest"] = "$x|$y|$$", "$y"
             if r.get("do"):
@@ -166,6 +191,24 @@ def run(c):
                 key = (r["ctor"].split("/")[0], "product" if r["shape"].startswith("product") else r["shape"], r.get("file", ""))
                 observed[key] = observed.get(key, False) or bool(r.get("panic"))
         c.coverage["sweep_runs_%d" % state["n"]] = len(runs)
+        # ---- enumerated-argument predicates: the names the loader accepted in the harness's probes against the regenerated sets
+        em = [r for r in rs if r.get("k") == "enum-meta"]
+        pm = [r for r in rs if r.get("k") == "partial-meta"]
+        if not em or not pm or em[0]["units"] < 300 or pm[0]["reports"] < 300 or min(em[0]["matches"].values() or [0]) < 1:
+            c.obligation("harness-sanity:enum-and-partial-sweeps", False, "the sweeps did not run or are too small: %r %r" % (em, pm))
+        else:
+            acc = em[0]["accepted"]
+            for name, want in sorted(regen_enums.items()):
+                if sorted(want) != sorted(acc.get(name, [])):
+                    c.obligation("harness-sanity:enum-accepted-aligned", False,
+                                 "%s: the names the loader accepts according to its source %r differ from the names Engine.Load accepted %r "
+                                 "(out of %d candidates)" % (name, sorted(want), sorted(acc.get(name, [])), em[0]["candidates"].get(name, 0)))
+            for name in ("Node.Is", "Node.Parent.Is"):
+                if len(acc.get(name, [])) < 40:
+                    c.obligation("harness-sanity:enum-accepted-aligned", False, "%s: only %d go/ast type names accepted" % (name, len(acc.get(name, []))))
+            c.coverage["enum_accepted_names"] = {k: len(v) for k, v in sorted(acc.items())}
+            c.coverage["enum_units_per_file"] = em[0]["units"]
+            c.coverage["partial_node_runs"] = pm[0]["runs"]
         # ---- history sweep: a reusable state created at every point of an engine's history of Loads
         hist = [r for r in rs if r.get("k") == "history"]
         hmeta = [r for r in rs if r.get("k") == "history-meta"]
